@@ -15,6 +15,7 @@ mod drv_activation;
 mod drv_transport;
 mod drv_connect;
 mod drv_ntlm;
+mod drv_codec;
 mod tlspeer;
 mod nlapeer;
 mod nlafault;
@@ -43,6 +44,7 @@ fn main() {
     let code = match args[1].as_str() {
         "activation" => drv_activation::run(&plans, &trace_path, &blobs, seed),
         "connect" => drv_connect::run(&plans, &trace_path, &blobs),
+        "codec" => drv_codec::run(&args),
         "ntlm" => drv_ntlm::run(&plans, &trace_path, &blobs),
         "transport" => drv_transport::run(&args, &plans, &trace_path, &blobs),
         other => { eprintln!("unknown driver {}", other); 2 }
